@@ -10,7 +10,7 @@ from core import Case, Violation, crash_key
 SOURCES = [("eng_poll", "C08"), ("eng_seq", "C14"), ("eng_io", "C16"), ("eng_life", "C15"), ("eng_life", "C07"),
            ("eng_io", "C17"), ("eng_poll", "C09")]
 QUOTA = {"quick": 700, "thorough": 6000}
-TABLE_CHANGERS = ("CLOSE012", "OPENFDS", "hlow=", "CHDIR", "CWDPAD")
+TABLE_CHANGERS = ("CLOSE012", "OPENFDS", "hlow=", "CHDIR", "CWDPAD")   # scenarios that change the caller's own table
 
 
 def close_out(script):
@@ -54,6 +54,22 @@ class LedgerEngine:
                 meta = {"src": "%s/%s" % (modname, p)}
                 out.append(Case("L%s-%s" % (p, c.id), script, meta,
                                 "ledger/%s/%s" % (p, c.sig or c.id)))
+        # its own few cases: each stream of a fully piped child closed by the parent - once, twice, with a read or
+        # write on the closed stream, with descriptors of the caller opened in between - then destroy
+        k = 0
+        for st in (0, 1, 2):
+            for variant in range(6):
+                ops = ["CL 0 %d" % st]
+                if variant in (1, 3, 5):
+                    ops.append("CL 0 %d" % st)
+                if variant in (2, 3):
+                    ops.append("RD 0 %d 10" % st if st else "WR 0 10")
+                if variant in (4, 5):
+                    ops.insert(1, "OPENFDS 3 %d 0" % (1000 + k))
+                for nb in (0, 1):
+                    script = "N 0 ; S 0 in=1 out=1 err=1 nb=%d ignpipe=1 stop=3:-1:0:0:0:0 ; %s ; D 0" % (nb, " ; ".join(ops))
+                    out.append(Case("Lclose-%d" % k, script, {"src": "eng_ledger/close"}, "ledger/close/%d/%d/%d" % (st, variant, nb)))
+                    k += 1
         return out
 
     def judge(self, prop, case, log):
